@@ -287,6 +287,18 @@ def run(chk):
             rejected.add(i + r[0] - 1)
     chk.sample({"trace_line": lines[0]})
     chk.sample({"trace_line": lines[-1]})
+    # S3b: the repository's own tests as drivers (canonicalize calls recorded from outside by harness/record_plugin.py: mostly identifier-contributing
+    # properties of 2.1 observables)
+    rl, summ = common.repo_test_traces(chk, ["canonjson"], select=["stix2/test/v21"])
+    cl = rl["canonjson"]
+    for ln in cl:
+        chk.case(["repo-test value", val_sig(ln["v"])])
+    for r in (common.validate_trace(chk, "Trace_CanonJson", "Trace_CanonJson", [{k: v for k, v in x.items() if k != "test"} for x in cl], "S3b_repo_tests") if cl else []):
+        ln = cl[r[0] - 1]
+        ln["recorded_from_repository_test"] = ln.pop("test", "")
+        report(ln, r[2], "S3b")
+    chk.stages["S3b_repo_tests"] = dict(chk.stages.get("S3b_repo_tests", {}), recorded_distinct_values=len(cl), tests_passed_under_recording=summ["tests_passed_under_recording"],
+                                        recorder_errors=summ["recorder_errors"], values_outside_model=summ["counts"].get("canonjson:outside_model", 0))
     # S4
     good = [json.loads(json.dumps(x)) for i, x in enumerate(lines) if x["ok"] and i not in rejected and x["t"] == "value" and len(x["out"]) > 3][:30]
     good[4]["out"][1] ^= 1
